@@ -167,6 +167,90 @@ class Gen:
         out.append(use())
         return [s_block(out)]
 
+    def seqfx(self, sc):
+        """side effects below a sequence point: a && (x op= e), c ? x++ : (y -= e), (x++, e): only the selected operand's effects happen"""
+        r = self.r
+        us = [n for n, t in sc["ints"].items() if t in UINTS and n not in sc["ro"]]
+        if not us:
+            return []
+        x = r.choice(us)
+        def fx(v):
+            k = r.random()
+            if k < 0.5:
+                return incdec(var(v), dec=r.random() < 0.5, post=r.random() < 0.6)
+            op = r.choice(["+=", "-=", "^=", "|=", "=", "*=", "<<="])
+            return asg_e(op, var(v), lit("int", r.randrange(0, 8)) if op == "<<=" else self.lit_for(r.choice(UINTS), small=True))
+        # an operand that neither reads nor writes x (unsequenced accesses would be undefined)
+        sub = self.scope(sc)
+        for d in ("ints",):
+            sub[d] = {n: t for n, t in sub[d].items() if n != x}
+        lv = self.int_lvalue(sub, exclude=(x,))
+        form = r.random()
+        if form < 0.35:
+            e = sc_e(r.choice(["&&", "||"]), self.expr(sub, 2), fx(x))
+        elif form < 0.7:
+            ys = [n for n in us if n != x]
+            b = fx(r.choice(ys)) if ys and r.random() < 0.7 else self.expr(sub, 2)
+            a = fx(x)
+            if r.random() < 0.5:
+                a, b = b, a
+            e = scond_e(self.expr(sub, 2), a, b)
+        else:
+            e = scomma_e(fx(x), self.expr(sc, 2))          # the right operand may read x: sequenced after the side effect
+        out = []
+        if lv and lv[2] != x and r.random() < 0.8:
+            out.append(s_asg(r.choice(["=", "=", "+=", "^="]) if lv[1] in UINTS else "=", lv[0], e))
+        else:
+            out.append(s_expr(e))
+        out.append(s_obs(var(x)))
+        return out
+
+    def ptrwalk(self, sc):
+        """a pointer stepping through an array: ++/--/+=/-=, differences and comparisons of pointers into the same array (6.5.6, 6.5.8, 6.5.9)"""
+        r = self.r
+        if not sc["arrs"]:
+            return []
+        a, (t, ln) = r.choice(list(sc["arrs"].items()))
+        p, q = self.fresh("wp"), self.fresh("wq")
+        pos = r.randrange(ln)
+        qpos = pos
+        el = lambda j: addr(idx(var(a), lit("int", j)))
+        out = [s_decl(p, P(T(t)), i_e(el(pos))), s_decl(q, P(T(t)), i_e(var(p)))]
+        for _ in range(r.randrange(3, 9)):
+            k = r.random()
+            if k < 0.3:
+                dec = r.random() < 0.5
+                if (dec and pos == 0) or (not dec and pos == ln):
+                    dec = not dec
+                if (dec and pos == 0) or (not dec and pos == ln):
+                    continue
+                e = incdec(var(p), dec=dec, post=r.random() < 0.5)
+                if r.random() < 0.4:
+                    out.append(s_asg("=", var(q), e))
+                    qpos = pos if e["post"] else pos + (-1 if dec else 1)
+                else:
+                    out.append(s_expr(e))
+                pos += -1 if dec else 1
+            elif k < 0.5:
+                d = r.randrange(-pos, ln - pos + 1)
+                tn = r.choice(["int", "uchar", "long", "ushort", "schar"]) if d >= 0 else r.choice(["int", "long", "schar"])
+                if d >= 0 or r.random() < 0.5:
+                    out.append(s_asg("+=" if d >= 0 else "-=", var(p), cast(T(tn), lit("int", abs(d))) if tn != "int" else lit("int", abs(d))))
+                else:
+                    out.append(s_asg("+=", var(p), cast(T(tn), lit("int", d)) if tn != "int" else lit("int", d)))
+                pos += d
+            elif k < 0.62:
+                out.append(s_obs(bin_("-", var(p), r.choice([var(q), el(r.randrange(ln + 1))]))))
+            elif k < 0.78:
+                out.append(s_obs(bin_(r.choice(["<", "<=", ">", ">=", "==", "!="]), var(p), r.choice([var(q), el(r.randrange(ln + 1))]))))
+            elif pos < ln:
+                if r.random() < 0.5:
+                    out.append(s_asg("=", deref(var(p)), self.lit_for(t)))
+                out.append(s_obs(r.choice([deref(var(p)), idx(var(p), lit("int", r.randrange(-pos, ln - pos)))])))
+            elif pos >= 1:
+                out.append(s_obs(idx(var(p), lit("int", -r.randrange(1, pos + 1)))))
+        return [s_block(out)]
+
     def special(self, sc):
         """VLAs, whole-struct copies, struct-by-value calls"""
         r = self.r
@@ -296,6 +380,10 @@ class Gen:
                         rhs = asg_e(r.choice(["+=", "-=", "^=", "|=", "="]), var(x), self.lit_for(r.choice(UINTS), small=True))
                     return [s_asg("=", lv[0], rhs)]
             return []
+        if c < 0.47:
+            return self.seqfx(sc)
+        if c < 0.50:
+            return self.ptrwalk(sc)
         if c < 0.55:
             return [s_obs(self.expr(sc))]
         if depth >= 2:
